@@ -57,6 +57,9 @@ fn probes(spec: &CmdSpec) -> Vec<Vec<Vec<u8>>> {
             vec!["v", "w"],
             vec!["sub", "-a"],
             vec!["sub", "--opt", "v"],
+            vec!["help", "help"],
+            vec!["help", "help", "help"],
+            vec!["help", "sub", "deep"],
         ]
     };
     v.into_iter().map(|l| l.into_iter().map(|s| s.as_bytes().to_vec()).collect()).collect()
